@@ -146,6 +146,7 @@ func (auth *Auth) Configure(config core.ServerConfig) error {
 	}
 
 	auth.configuredDIDMethods = config.DIDMethods
+	auth.strictMode = config.Strictmode
 
 	auth.contractNotary = notary.NewNotary(notary.Config{
 		PublicURL:             auth.publicURL.String(),
